@@ -919,7 +919,6 @@ class _ClassBuilder:
         names = self._attr_names
         if (
             self._weakref_slot
-            and "__weakref__" not in getattr(self._cls, "__slots__", ())
             and "__weakref__" not in names
             and not weakref_inherited
         ):
